@@ -2,7 +2,7 @@
 """Run every seeded change under /verif/seeded against the check of its property and record the outcome in its
 meta.json.  Each change is applied in its own scratch worktree of /repo (VERIF_REPO_OVERRIDE, see ./check): /repo and
 /verif/evidence stay untouched, and three changes are tried side by side.
-Usage: tools/sweep_seeded.py [name ...]"""
+Usage: tools/sweep_seeded.py [name ...]      (SWEEP_WORKERS=n: how many at a time; the C05 / C10 checks are heavy - sweep those with 1)"""
 import concurrent.futures as cf
 import json
 import os
@@ -43,6 +43,6 @@ def one(n):
 
 
 names = sys.argv[1:] or sorted(os.listdir(f"{V}/seeded"))
-with cf.ThreadPoolExecutor(max_workers=3) as ex:
+with cf.ThreadPoolExecutor(max_workers=int(os.environ.get("SWEEP_WORKERS", "3"))) as ex:
     for n, det in ex.map(one, names):
         print(n, det.get("exit"), det.get("clauses"), det.get("error", ""), flush=True)
